@@ -32,6 +32,8 @@ def gen_case(rng: random.Random) -> dict[str, Any]:
                               "sig": rng.choice(["SIGTERM", "SIGINT"]), "d": rng.choice([0, 1, 3])}
     cli = kind in ("cliReturn", "cliRaise") or (kind in ("crashAfterStartup",) and rng.random() < 0.5) or \
         (kind in ("startupFail", "startupTimeout", "signalDuringStartup") and rng.random() < 0.5)
+    if kind == "startupTimeout" and rng.random() < 0.4:
+        ending["t0"] = True         # start_timeout=0: the time limit strikes as soon as start-up has to wait for anything
     if kind == "signalDuringStartup" and rng.random() < 0.4:
         ending["shieldFail"] = True
     if kind == "cliReturn":
@@ -102,7 +104,7 @@ class C15(Prop):
         endings += [{"k": "cliReturn", "r": "other", "ov": ov} for ov in range(9)]
         endings += [{"k": "cliReturn", "r": "int", "n": n} for n in (0, 1, 2, 126, 127, 128, 255, 256, 1000, -1, -127, -128)]
         endings += [{"k": "cliReturn", "r": "int", "n": n, "isub": kind} for n in (0, 3, 127, 128) for kind in ("enum", "cls")]
-        endings += [{"k": "cliRaise", "e": 1}, {"k": "startupFail"}, {"k": "startupTimeout"},
+        endings += [{"k": "cliRaise", "e": 1}, {"k": "startupFail"}, {"k": "startupTimeout"}, {"k": "startupTimeout", "t0": True},
                     {"k": "signalDuringStartup", "sig": "SIGINT"}, {"k": "signalDuringStartup", "sig": "SIGTERM"},
                     {"k": "signalDuringStartup", "sig": "SIGINT", "shieldFail": True},
                     {"k": "signalDuringStartup", "sig": "SIGTERM", "shieldFail": True},
